@@ -56,3 +56,29 @@ extern "C" void vh_c11_close() {
     File g = File::open(WORLD_FILE, FileMode::Overwrite);
     nixsym_assert(g.isOpen() && g.blockCount() == 0, "path can be reopened with truncation after close");
 }
+
+// many live handles at close time: close() has to release every one of them, however many there are
+#ifndef VH_MANY
+#define VH_MANY 70
+#endif
+extern "C" void vh_c11_many() {
+    nixsym_declare_reach("released");
+    File f = File::open("many.h5", FileMode::Overwrite);
+    Block b = f.createBlock("b", "t");
+    std::vector<DataArray> arrays; std::vector<Section> secs;
+    uint32_t n = nixsym_choice("many", 2) == 0 ? 3 : VH_MANY;
+    for (uint32_t i = 0; i < n; i++) arrays.push_back(b.createDataArray("a" + util::numToStr((unsigned long long)i), "t", DataType::Double, NDSize({1})));
+    for (uint32_t i = 0; i < n / 2; i++) secs.push_back(f.createSection("s" + util::numToStr((unsigned long long)i), "t"));
+    nixsym_assert(h5m_open_ids("many.h5", 0) >= (int)n, "the handles keep HDF5 objects open");
+    f.close();
+    nixsym_assert(h5m_open_ids("many.h5", 1) == 0 && !h5m_file_is_open("many.h5"), "close() left HDF5 identifiers of the file open (file not released)");
+    bool threw = false;
+    try { (void)arrays.back().dataExtent(); } catch (const std::exception &) { threw = true; }
+    nixsym_assert(threw, "the last of many handles still works after close()");
+    threw = false;
+    try { (void)secs.back().name(); } catch (const std::exception &) { threw = true; }
+    nixsym_assert(threw, "a section handle still works after close()");
+    File g = File::open("many.h5", FileMode::ReadOnly);
+    nixsym_assert(g.getBlock("b").dataArrayCount() == n, "everything created before close is there after reopen");
+    nixsym_reach("released");
+}
